@@ -15,7 +15,7 @@ make -s -C "$REPO/src" internal/schema.h internal/version.h >/dev/null 2>&1 || {
 case "$VARIANT" in
   asan)  CC=clang; CXX=clang++; FLAGS="-g -O1 -fsanitize=address,undefined -fno-sanitize-recover=undefined -fno-omit-frame-pointer";;
   plain) CC=gcc; CXX=g++; FLAGS="-g -O1";;
-  fault) CC=gcc; CXX=g++; FLAGS="-g -O1 -DCIFRUN_FAULT";;
+  fault) CC=clang; CXX=clang++; FLAGS="-g -O1 -fsanitize=address,undefined -fno-sanitize-recover=undefined -fno-omit-frame-pointer -DCIFRUN_FAULT";;
   *) echo "unknown variant" >&2; exit 2;;
 esac
 DEFS="-DHAVE_CONFIG_H -DCOMCIFS_CIF_API_VERIF"
@@ -44,8 +44,12 @@ OBJS=""; for f in $SRCS; do OBJS="$OBJS $TMP/$f.o"; done
 EXTRA=""
 if [ "$VARIANT" = fault ]; then
   $CC $FLAGS -w -c "$HERE/fault.c" -o "$TMP/fault.o" || { rm -rf "$TMP"; exit 3; }
+  # only the library's own objects get their allocation calls redirected (the harness keeps the real ones)
+  for f in $SRCS; do
+    objcopy --redefine-sym malloc=cifv_malloc --redefine-sym calloc=cifv_calloc --redefine-sym realloc=cifv_realloc \
+            --redefine-sym strdup=cifv_strdup "$TMP/$f.o" || { rm -rf "$TMP"; exit 3; }
+  done
   OBJS="$OBJS $TMP/fault.o"
-  EXTRA="-Wl,--wrap=malloc -Wl,--wrap=calloc -Wl,--wrap=realloc -Wl,--wrap=strdup"
 fi
 $CXX $FLAGS $EXTRA -o "$TMP/cifrun" "$TMP/cifrun.o" $OBJS -lsqlite3 -licuio -licui18n -licuuc -licudata -lm 2>"$TMP/link.err" \
   || { cat "$TMP/link.err" >&2; rm -rf "$TMP"; echo "LINK FAILED" >&2; exit 3; }
